@@ -105,4 +105,9 @@ def gen_input(rng, t, n_scaff=None, mode=None, strands=None, max_contigs=8, max_
                 rows.append(["G", gap_len(rng, t), "scaffold"])
                 labels.add("in:trailing-gap")
         scaffolds.append([name, rows])
+    if terminal_gaps and mode == "fasta" and rng.random() < 0.12:
+        # a FASTA record made only of N: a scaffold without any contig
+        k = rng.randint(0, len(scaffolds))
+        scaffolds.insert(k, [f"{name_prefix}N{len(scaffolds) + 1}", [["G", rng.choice([1, 50, 200, int(3 * t) + 1]), "scaffold"]]])
+        labels.add("in:gap-only-scaffold")
     return scaffolds, labels
